@@ -175,6 +175,10 @@ def apply_op(e, op):
             return fmt_val(e.remove_policies([list(r) for r in op[1]]))
         if k == "rmf":
             return fmt_val(e.remove_filtered_policy(op[1], *op[2]))
+        if k == "rmfe":  # model-level API (used by DistributedEnforcer); the generic code rebinds the policy like remove_filtered_policy
+            return fmt_val(e.model.remove_filtered_policy_returns_effects("p", "p", op[1], *op[2]))
+        if k == "values":  # get_all_subjects / objects / actions
+            return canon_rules([[v] for v in e.model.get_values_for_field_in_policy("p", "p", op[1])])
         if k == "upd":
             return fmt_val(e.update_policy(list(op[1]), list(op[2])))
         if k == "updmany":
@@ -226,8 +230,10 @@ def lean_op(op):
         return k + "\t" + enc_rule(op[1])
     if k in ("addmany", "rmmany"):
         return k + "\t" + enc_rules(op[1])
-    if k in ("rmf", "getf"):
+    if k in ("rmf", "getf", "rmfe"):
         return k + "\t" + str(op[1]) + "\t" + enc_rule(op[2])
+    if k == "values":
+        return k + "\t" + str(op[1])
     if k == "upd":
         return k + "\t" + enc_rule(op[1]) + "\t" + enc_rule(op[2])
     if k == "updmany":
@@ -324,8 +330,10 @@ def malformed(op, shape, order):
         return any(bad(r) for r in op[1] + op[2])
     if k == "load":
         return any(bad(r) for r in op[1]) or any(len(g) != 2 for g in op[2])
-    if k in ("rmf", "getf"):
+    if k in ("rmf", "getf", "rmfe"):
         return op[1] + len(op[2]) > ar
+    if k == "values":
+        return op[1] >= ar
     if k in ("addg", "rmg"):
         return len(op[1]) != 2
     return False
@@ -348,6 +356,7 @@ def alphabet(shape, small=False):
         ["addmany", [r1, r3]], ["addmany", [r2, r4]], ["addmany", [r3, r3]],
         ["rmmany", [r1, r2]], ["rmmany", [r2, r3]], ["rmmany", [r1, r1]],
         ["rmf", 0, [s1]], ["rmf", 1, ["d2"]], ["rmf", 0, ["", "d1", "read"]], ["rmf", 1, ["", "write"]], ["rmf", 0, []],
+        ["rmfe", 0, [s1]], ["rmfe", 1, []], ["values", 0], ["values", 2],
         ["upd", r1, r3], ["upd", r1, r2], ["upd", r2, r2], ["upd", r3, r4],
         ["updmany", [r1, r2], [r3, r4]], ["updmany", [r1, r2], [r2, r1]], ["updmany", [r1], [r3, r4]],
         ["clear"],
@@ -358,7 +367,7 @@ def alphabet(shape, small=False):
     ]
     if small:
         drop = [["add", r3], ["rm", r2], ["addmany", [r2, r4]], ["rmmany", [r2, r3]], ["upd", r3, r4], ["load", [r3], []],
-                ["getf", 1, ["d2", ""]], ["enf", r1[:1]]]
+                ["getf", 1, ["d2", ""]], ["enf", r1[:1]], ["rmfe", 1, []], ["values", 2]]
         ops = [o for o in ops if o not in drop]
     if HAS_G[shape]:
         ops += [["addg", GRULES[0]], ["addg", GRULES[1]], ["rmg", GRULES[0]]] + ([] if small else [["addg", GRULES[2]]])
@@ -409,8 +418,8 @@ def rand_op(rng, shape, U, allow_malformed):
     s = SUB[shape]
     r = rng.random
     k = rng.choices(
-        ["add", "rm", "addmany", "rmmany", "rmf", "upd", "updmany", "clear", "load", "has", "get", "getf", "enf", "addg", "rmg"],
-        [16, 10, 8, 6, 10, 8, 5, 2, 3, 4, 2, 3, 4, 5 if HAS_G[shape] else 0, 3 if HAS_G[shape] else 0],
+        ["add", "rm", "addmany", "rmmany", "rmf", "upd", "updmany", "clear", "load", "has", "get", "getf", "enf", "addg", "rmg", "rmfe", "values"],
+        [16, 10, 8, 6, 10, 8, 5, 2, 3, 4, 2, 3, 4, 5 if HAS_G[shape] else 0, 3 if HAS_G[shape] else 0, 4, 3],
     )[0]
     if k in ("add", "rm", "has"):
         rule = rand_rule(rng, shape, U)
@@ -423,7 +432,9 @@ def rand_op(rng, shape, U, allow_malformed):
         if allow_malformed and r() < 0.2 and rules:
             rules[rng.randrange(len(rules))] = rules[0][:1]
         return [k, rules]
-    if k in ("rmf", "getf"):
+    if k == "values":
+        return [k, rng.choice([0, 1, 2] + ([3, 4] if allow_malformed else []))]
+    if k in ("rmf", "getf", "rmfe"):
         ar = arity(shape)
         i = rng.choice([0, 0, 1, 1, 2])
         n = rng.choice([0, 1, 1, 2, 3]) if not allow_malformed else rng.choice([0, 1, 2, 3, 4])
@@ -518,8 +529,9 @@ def signature(job, where, fast_s, plain_s, fast=None):
                 return "F14e:empty-bucket-takes-empty-policy-branch"
             errs = sorted({d for d in fds if d.startswith("!")} - {d for d in pds if d.startswith("!")})
             how = "decision" + (errs[0] if errs else "-differs")
-    if nk != 2 and (how.startswith("rules") or fast_s == "!attributeError"):
-        return "F14c:iteration-assumes-two-keys"
+    if nk != 2 and (how.startswith("rules") or fast_s == "!attributeError"
+                    or (how == "differs" and op in ("get", "getf", "values", "upd", "updmany", "rmf", "rmfe"))):
+        return "F14c:iteration-assumes-two-keys"  # every call that iterates the unfiltered container
     if nk >= arity(job["shape"]) and op in ("add", "rm", "has", "addmany", "rmmany") and how == "differs":
         return "F14d:contains-rejects-rules-with-as-many-fields-as-keys"
     return f"{where}:{how}:keys={'2' if nk == 2 else ('1' if nk == 1 else '3+')}"
@@ -610,6 +622,8 @@ def run_job(job, answers):
                     # order, which the model does not (and must not) reproduce -> compare the rule sets only
                     of_c, m2_c = of.split("#", 1)[0], m2.split("#", 1)[0]
                     count("malformed:decisions-not-compared")
+                    if op[0] == "enf":
+                        rf = m1  # the call's own decision has the same dependence
             if step < skip_obs:
                 of_c = m2_c = op_ = s2 = m2 = ""
             if rf != m1 or of_c != m2_c:
@@ -623,6 +637,34 @@ def run_job(job, answers):
                     out["mvs"].append(dict(case=case, model=[m1, m2], spec=[s1, s2]))
                     break
     return out
+
+
+def shrink(v):
+    """greedy delta-debugging on the operation list: drop calls while the same signature is still reported"""
+    c = v.get("case", {})
+    if len(c.get("ops", [])) <= 2:
+        return v
+    ops, best = list(c["ops"]), v
+    budget = 200
+
+    def fails(cand):
+        o = run_job(dict(shape=c["shape"], order=c["order"], ops=cand, stream=c.get("stream", "rnd")), None)
+        return next((x for x in o["viol"] if x["signature"] == v["signature"]), None)
+
+    changed = True
+    while changed and budget > 0:
+        changed = False
+        for i in range(len(ops)):
+            budget -= 1
+            cand = ops[:i] + ops[i + 1 :]
+            r = fails(cand)
+            if r is not None:
+                # the violation is reported at the failing call: everything after it is already cut
+                ops, best, changed = list(r["case"]["ops"]), r, True
+                break
+    if best is not v:
+        best = dict(best, shrunk_from=len(c["ops"]))
+    return best
 
 
 def _worker(jobs):
@@ -646,6 +688,12 @@ def _worker(jobs):
         for k, v in o["counts"].items():
             agg["counts"][k] = agg["counts"].get(k, 0) + v
     agg["viol"] = _cap(agg["viol"])
+    if jobs:
+        j = jobs[len(jobs) // 2]
+        fast, plain = make_pair(j["shape"], j["order"])
+        rs = [(apply_op(fast, op), apply_op(plain, op)) for op in j["ops"]]
+        agg["samples"] = [dict(model=j["shape"], cache_key_order=j["order"], history=j["ops"], results_fast_vs_plain=rs,
+                               final=observe(fast, job_requests(j)))]
     agg["dis"] = agg["dis"][:10]
     agg["mvs"] = agg["mvs"][:3]
     return agg
@@ -679,8 +727,15 @@ def run_jobs(jobs, res):
             res.nontrivial |= agg["nontrivial"]
             for k, v in agg["counts"].items():
                 res.count(k, v)
-    # keep the shortest witnesses first
+            for smp in agg.get("samples", []):
+                res.sample(smp)
+    # keep the shortest witnesses first, one per signature shrunk
     res.spec_violations.sort(key=lambda v: len(v["case"].get("ops", [])))
+    seen = set()
+    for i, v in enumerate(res.spec_violations):
+        if v["signature"] not in seen and len(seen) < 12:
+            seen.add(v["signature"])
+            res.spec_violations[i] = shrink(v)
 
 
 def run_sections(res):
@@ -729,22 +784,22 @@ def run(ctx):
     if not ctx["deep"]:
         stages = [("quick", 2, 0, 2000, (3, 10))]
     elif ctx["proof_ok"] and ctx["tier"] == "thorough":
-        stages = [("thorough", 2, 900, 9000, (3, 30))]
+        stages = [("thorough", 2, 2000, 14000, (3, 30))]
     else:
-        stages = [("quick", 2, 0, 2000, (3, 10)), ("thorough", 2, 900, 9000, (3, 30))]
+        stages = [("quick", 2, 0, 2000, (3, 10)), ("thorough", 2, 2000, 14000, (3, 30))]
     for name, maxlen, exh3, nrand, (lo, hi) in stages:
         jobs = load_corpus() + list(gen_exhaustive(maxlen, full=(name == "thorough"))) + list(gen_exh3(rng, exh3)) + list(gen_random(rng, nrand, lo, hi))
         if name == "thorough":
-            jobs += list(gen_random(rng, 1500, 30, 30))
+            jobs += list(gen_random(rng, 2500, 30, 30))
         run_sections(res)
         run_jobs(jobs, res)
         res.rule = (
             f"[{name}] every history of length <= {maxlen} over a {len(alphabet('acl', name != 'thorough'))}/{len(alphabet('rbac', name != 'thorough'))}-operation alphabet (add/remove single+batch, "
-            "remove_filtered, update single+batch, clear, load, has/get/get_filtered, ill-sized enforce, grouping add/remove) from the loaded initial policy (and from the empty one for a key order of each depth; all in the thorough tier) x "
+            "remove_filtered (+returns_effects), update single+batch, clear, load, has/get/get_filtered/field values, ill-sized enforce, grouping add/remove) from the loaded initial policy (and from the empty one for a key order of each depth; all in the thorough tier) x "
             f"{sum(len(v) for v in ORDERS.values())} model/key-order combinations (ACL, RBAC, RBAC-with-deny x [2,1],[1,2],[0,1],[0,1,2],[1],[0],[2,1,0]) exhaustively"
             + (f", {exh3} sampled length-3 histories per combination" if exh3 else "")
             + f", {nrand} seeded random histories of length {lo}-{hi}"
-            + (", 1500 of length 30" if name == "thorough" else "")
+            + (", 2500 of length 30" if name == "thorough" else "")
             + "; after every call: result, sorted rule set and the decisions over the request universe (all requests over the names in use, incl. the all-empty and one-empty-field requests: 12/16 requests in the exhaustive histories, the full 27/36 product incl. empty fields in the random ones) of "
             "FastEnforcer, Enforcer, Lean model and Lean plain-list spec compared; non-trivial = some request allowed; distinct by (model, order, observation, op)"
         )
